@@ -1,3 +1,325 @@
-import FluentModel.SpecGrammar
+import FluentProofs.SpecLex
+/-!
+# The dedentation core: the parser model's offset arithmetic versus the grammar's abstract syntax (C02, T2)
+
+`Parser.finishElements` turns a line-start text placeholder `(start, stop, indent)` into the slice
+`start + min indent common .. stop` and trims the last element with `trimEnd`; the grammar's
+abstract syntax (`SpecGrammar.finishPattern`) removes `common` spaces from every indent
+(`dedent`), joins adjacent text and drops trailing white space of the last element.  This file proves
+the pure facts that connect the two, for all sources and offsets.
+-/
 namespace FluentProofs.SpecDedent
+open FluentModel FluentModel.Syntax FluentModel.SpecGrammar FluentProofs.Parser FluentProofs.SpecLex
+
+/-! ## the common indent is the minimum of the indents -/
+
+/-- the indents that take part in the dedentation -/
+def indentsOf : List RawEl → List Nat
+  | [] => []
+  | .indent k :: rest => k :: indentsOf rest
+  | _ :: rest => indentsOf rest
+
+theorem commonIndent_le (els : List RawEl) (c : Nat) (h : commonIndent els = some c) :
+    ∀ k ∈ indentsOf els, c ≤ k := by
+  induction els generalizing c with
+  | nil => intro k hk; simp [indentsOf] at hk
+  | cons e rest ih =>
+    cases e with
+    | text t => simpa [commonIndent, indentsOf] using ih c (by simpa [commonIndent] using h)
+    | placeable x => simpa [commonIndent, indentsOf] using ih c (by simpa [commonIndent] using h)
+    | indent k0 =>
+      intro k hk
+      simp only [indentsOf, List.mem_cons] at hk
+      simp only [commonIndent] at h
+      cases hc : commonIndent rest with
+      | none =>
+        rw [hc] at h
+        have hk0 : k0 = c := by simpa using h
+        have hnil : indentsOf rest = [] := by
+          clear ih h hk
+          induction rest with
+          | nil => rfl
+          | cons e r ihr =>
+            cases e with
+            | text t => simpa [commonIndent, indentsOf] using ihr (by simpa [commonIndent] using hc)
+            | placeable x => simpa [commonIndent, indentsOf] using ihr (by simpa [commonIndent] using hc)
+            | indent k1 =>
+              simp only [commonIndent] at hc
+              split at hc <;> simp at hc
+        rcases hk with rfl | hk
+        · omega
+        · rw [hnil] at hk; simp at hk
+      | some c' =>
+        rw [hc] at h
+        have hmin : min k0 c' = c := by simpa using h
+        rcases hk with rfl | hk
+        · omega
+        · have := ih c' hc k hk; omega
+
+theorem commonIndent_mem (els : List RawEl) (c : Nat) (h : commonIndent els = some c) : c ∈ indentsOf els := by
+  induction els generalizing c with
+  | nil => simp [commonIndent] at h
+  | cons e rest ih =>
+    cases e with
+    | text t => simpa [commonIndent, indentsOf] using ih c (by simpa [commonIndent] using h)
+    | placeable x => simpa [commonIndent, indentsOf] using ih c (by simpa [commonIndent] using h)
+    | indent k0 =>
+      simp only [commonIndent] at h
+      simp only [indentsOf, List.mem_cons]
+      cases hc : commonIndent rest with
+      | none => rw [hc] at h; left; simpa using h.symm
+      | some c' =>
+        rw [hc] at h
+        have hmin : min k0 c' = c := by simpa using h
+        by_cases hle : k0 ≤ c'
+        · left; omega
+        · right
+          have : c = c' := by omega
+          subst this; exact ih c hc
+
+/-- T2: `commonIndent` is the minimum over the indents of all `block_text`/`block_placeable` lines:
+a lower bound that is attained (so `dedent` never removes more than a line has, and removes
+everything from at least one line). -/
+theorem commonIndent_is_min (els : List RawEl) (c : Nat) (h : commonIndent els = some c) :
+    c ∈ indentsOf els ∧ ∀ k ∈ indentsOf els, c ≤ k :=
+  ⟨commonIndent_mem els c h, commonIndent_le els c h⟩
+
+/-! ## offset arithmetic of `finishElements` = `dedent` on the indent -/
+
+theorem seg_spaces (s : Src) (a k : Nat) (h : ∀ j, a ≤ j → j < a + k → s[j]? = some 32) :
+    seg s a (a + k) = List.replicate k 32 := by
+  induction k generalizing a with
+  | zero => simp [seg_self]
+  | succ k ih =>
+    have h0 : s[a]? = some 32 := h a (Nat.le_refl _) (by omega)
+    rw [seg_cons h0 (by omega), show a + (k + 1) = (a + 1) + k by omega,
+      ih (a + 1) (fun j h1 h2 => h j (by omega) (by omega))]
+    rfl
+
+/-- the text the grammar's `dedent` leaves of an indent of `k` spaces -/
+def dedentText (c k : Nat) : Bytes :=
+  match dedent c (.indent k) with
+  | .text t => t
+  | .placeable _ => []
+
+theorem dedentText_eq (c k : Nat) : dedentText c k = List.replicate (k - c) 32 := rfl
+
+/-- T2 (dedentation core): for a line whose first `indent` bytes are spaces, the slice
+`start + min indent common .. stop` that `finishElements` takes is exactly what the grammar's abstract
+syntax produces for that line: the indent with `common` spaces removed, followed by the line's text. -/
+theorem dedent_offset (s : Src) (start stop indent common : Nat)
+    (hsp : ∀ j, start ≤ j → j < start + indent → s[j]? = some 32) (h : start + indent ≤ stop) :
+    spanBytes s ⟨start + min indent common, stop⟩ =
+      dedentText common indent ++ spanBytes s ⟨start + indent, stop⟩ := by
+  rw [spanBytes_eq_seg, spanBytes_eq_seg, dedentText_eq]
+  have hmin : min indent common ≤ indent := Nat.min_le_left _ _
+  rw [seg_append (s := s) (p := start + min indent common) (q := start + indent) (r := stop) (by omega) h]
+  congr 1
+  have := seg_spaces s (start + min indent common) (indent - min indent common)
+    (fun j h1 h2 => hsp j (by omega) (by omega))
+  rw [show start + min indent common + (indent - min indent common) = start + indent by omega] at this
+  rw [this]
+  congr 1
+  omega
+
+/-- the same for `common_indent = None` (no line took part): the whole indent is removed -/
+theorem dedent_offset_none (s : Src) (start stop indent : Nat) :
+    spanBytes s ⟨start + indent, stop⟩ = dedentText indent indent ++ spanBytes s ⟨start + indent, stop⟩ := by
+  simp [dedentText_eq]
+
+/-! ## `Slice::trim` versus "the last element loses trailing spaces" -/
+
+/-- what `matches_fluent_ws` accepts -/
+def isTrimByte (b : UInt8) : Bool := b == 32 || b == 13 || b == 10
+
+theorem seg_snoc {s : Src} {a e : Nat} {b : UInt8} (hae : a < e) (hb : s[e - 1]? = some b) :
+    seg s a e = seg s a (e - 1) ++ [b] := by
+  obtain ⟨k, rfl⟩ : ∃ k, e = k + 1 := ⟨e - 1, by omega⟩
+  have hb' : s[k]? = some b := by simpa using hb
+  rw [seg_append (s := s) (p := a) (q := k) (r := k + 1) (by omega) (by omega), seg_one hb']
+  simp
+
+theorem trimEndGo_seg (s : Src) (start n e : Nat) (hn : e - start ≤ n) (he : e ≤ s.size) :
+    seg s start (trimEndGo s start n e) = ((seg s start e).reverse.dropWhile isTrimByte).reverse := by
+  induction n generalizing e with
+  | zero =>
+    have : seg s start e = [] := by
+      unfold seg; rw [show e - start = 0 by omega]; simp
+    simp [trimEndGo, this]
+  | succ n ih =>
+    simp only [trimEndGo]
+    by_cases hgt : e > start
+    · simp only [hgt, if_true]
+      have hlt : e - 1 < s.size := by omega
+      have hsome : s[e - 1]? = some s[e - 1] := by simp [hlt]
+      rw [hsome]
+      simp only
+      have hsn := seg_snoc (s := s) (a := start) (e := e) hgt hsome
+      by_cases hw : (s[e - 1] == 32 || s[e - 1] == 13 || s[e - 1] == 10) = true
+      · simp only [hw, if_true]
+        rw [ih (e - 1) (by omega) (by omega), hsn]
+        have : isTrimByte s[e - 1] = true := hw
+        simp [List.dropWhile_cons, this]
+      · have hw' : (s[e - 1] == 32 || s[e - 1] == 13 || s[e - 1] == 10) = false := by simpa using hw
+        simp only [hw', Bool.false_eq_true, if_false]
+        rw [hsn]
+        have : isTrimByte s[e - 1] = false := hw'
+        simp [List.dropWhile_cons, this]
+    · simp only [hgt, if_false]
+      have : seg s start e = [] := by
+        unfold seg; rw [show e - start = 0 by omega]; simp
+      simp [this]
+
+/-- `Slice::trim` removes the trailing bytes in `{' ', '\r', '\n'}` -/
+theorem trimEnd_bytes (s : Src) (sp : Span) (h : sp.stop ≤ s.size) :
+    spanBytes s (trimEnd s sp) = ((spanBytes s sp).reverse.dropWhile isTrimByte).reverse := by
+  unfold trimEnd
+  rw [spanBytes_eq_seg, spanBytes_eq_seg]
+  exact trimEndGo_seg s sp.start _ sp.stop (Nat.le_refl _) h
+
+theorem isTrimByte_eq : isTrimByte = isTrailingWs := by
+  funext b
+  simp only [isTrimByte, isTrailingWs]
+  cases (b == 32) <;> cases (b == 13) <;> cases (b == 10) <;> rfl
+
+/-- T2: `Slice::trim` on the last text element is the grammar's "the last element loses trailing white
+space" (space, `\n`, `\r` — the reference implementation's `trailingWSRe`), byte for byte. -/
+theorem trimEnd_eq_dropTrailingWs (s : Src) (sp : Span) (h : sp.stop ≤ s.size) :
+    spanBytes s (trimEnd s sp) = dropTrailingWs (spanBytes s sp) := by
+  rw [trimEnd_bytes s sp h, isTrimByte_eq]
+  rfl
+
+/-! ## the grammar's patterns are in joined normal form -/
+
+/-- no two adjacent text elements -/
+def NoAdjText : List (PatElem Bytes) → Prop
+  | [] => True
+  | [_] => True
+  | .text _ :: .text _ :: _ => False
+  | _ :: e :: rest => NoAdjText (e :: rest)
+
+theorem noAdjText_tail {e : PatElem Bytes} {l : List (PatElem Bytes)} (h : NoAdjText (e :: l)) : NoAdjText l := by
+  cases l with
+  | nil => trivial
+  | cons e2 r =>
+    cases e with
+    | text a => cases e2 with
+      | text b => simp [NoAdjText] at h
+      | placeable x => simpa [NoAdjText] using h
+    | placeable x => simpa [NoAdjText] using h
+
+theorem noAdjText_cons_placeable {x : Expr Bytes} {l : List (PatElem Bytes)} (h : NoAdjText l) :
+    NoAdjText (.placeable x :: l) := by
+  cases l with
+  | nil => trivial
+  | cons e2 r => simpa [NoAdjText] using h
+
+theorem noAdjText_cons_text {a : Bytes} {l : List (PatElem Bytes)} (h : NoAdjText l)
+    (hl : ∀ b r, l ≠ .text b :: r) : NoAdjText (.text a :: l) := by
+  cases l with
+  | nil => trivial
+  | cons e2 r =>
+    cases e2 with
+    | text b => exact absurd rfl (hl b r)
+    | placeable y => simpa [NoAdjText] using h
+
+theorem joinAdjacent_noAdj (l : List (PatElem Bytes)) : NoAdjText (joinAdjacent l) := by
+  induction l with
+  | nil => trivial
+  | cons e rest ih =>
+    cases e with
+    | placeable x => simp only [joinAdjacent]; exact noAdjText_cons_placeable ih
+    | text a =>
+      simp only [joinAdjacent]
+      cases hj : joinAdjacent rest with
+      | nil => trivial
+      | cons e2 r =>
+        rw [hj] at ih
+        cases e2 with
+        | text b =>
+          simp only
+          apply noAdjText_cons_text (noAdjText_tail ih)
+          intro c r' hr
+          subst hr
+          simp [NoAdjText] at ih
+        | placeable y =>
+          simp only
+          apply noAdjText_cons_text ih
+          intro c r' hr
+          cases hr
+
+theorem noAdjText_text_swap {a b : Bytes} {l : List (PatElem Bytes)} (h : NoAdjText (.text a :: l)) :
+    NoAdjText (.text b :: l) := by
+  cases l with
+  | nil => trivial
+  | cons e2 r =>
+    cases e2 with
+    | text c => simp [NoAdjText] at h
+    | placeable y => simpa [NoAdjText] using h
+
+theorem trimFirst_noAdj {l : List (PatElem Bytes)} (h : NoAdjText l) : NoAdjText (trimFirst l) := by
+  cases l with
+  | nil => exact h
+  | cons e rest =>
+    cases e with
+    | text t => exact noAdjText_text_swap h
+    | placeable x => exact h
+
+theorem trimLast_noAdj {l : List (PatElem Bytes)} (h : NoAdjText l) : NoAdjText (trimLast l) := by
+  induction l with
+  | nil => exact h
+  | cons e rest ih =>
+    cases rest with
+    | nil => cases e <;> trivial
+    | cons e2 r =>
+      have ht := ih (noAdjText_tail h)
+      have hun : trimLast (e :: e2 :: r) = e :: trimLast (e2 :: r) := by
+        cases e <;> simp [trimLast]
+      rw [hun]
+      cases e with
+      | placeable x => exact noAdjText_cons_placeable ht
+      | text a =>
+        apply noAdjText_cons_text ht
+        intro b r' hr
+        cases e2 with
+        | text c => simp [NoAdjText] at h
+        | placeable y =>
+          cases r with
+          | nil => simp [trimLast] at hr
+          | cons e3 r3 => simp [trimLast] at hr
+
+theorem filter_noAdj {l : List (PatElem Bytes)} (h : NoAdjText l) : NoAdjText (l.filter nonEmptyEl) := by
+  induction l with
+  | nil => exact h
+  | cons e rest ih =>
+    have ht := ih (noAdjText_tail h)
+    cases e with
+    | placeable x =>
+      simp only [List.filter_cons, nonEmptyEl, if_true]
+      exact noAdjText_cons_placeable ht
+    | text a =>
+      simp only [List.filter_cons]
+      split
+      · apply noAdjText_cons_text ht
+        intro b r' hr
+        cases rest with
+        | nil => simp at hr
+        | cons e2 r =>
+          cases e2 with
+          | text c => simp [NoAdjText] at h
+          | placeable y => simp [List.filter_cons, nonEmptyEl] at hr
+      · exact ht
+
+/-- T2: every pattern the grammar's abstract syntax produces is in joined normal form (no two adjacent
+text elements) — the form `joinText` brings the parser's trees into before they are compared. -/
+theorem finishPattern_noAdj (els : List RawEl) : NoAdjText (finishPattern els) := by
+  unfold finishPattern
+  exact filter_noAdj (trimLast_noAdj (trimFirst_noAdj (joinAdjacent_noAdj _)))
+
+/-- … and contains no empty text element -/
+theorem finishPattern_nonEmpty (els : List RawEl) : ∀ e ∈ finishPattern els, nonEmptyEl e = true := by
+  intro e he
+  unfold finishPattern at he
+  exact (List.mem_filter.mp he).2
+
 end FluentProofs.SpecDedent
